@@ -74,16 +74,19 @@ type itemMPSC struct {
 }
 
 func (q *queueMPSC) Push(value any) bool {
+	VerifPoint("mpsc.push", q)
 	i := &itemMPSC{
 		value: value,
 	}
 	atomic.AddInt64(&q.length, 1)
 	old_head := (*itemMPSC)(atomic.SwapPointer((*unsafe.Pointer)(unsafe.Pointer(&q.head)), unsafe.Pointer(i)))
+	VerifPoint("mpsc.link", q)
 	atomic.StorePointer((*unsafe.Pointer)(unsafe.Pointer(&old_head.next)), unsafe.Pointer(i))
 	return true
 }
 
 func (q *queueLimitMPSC) Push(value any) bool {
+	VerifPoint("mpsc.push", q)
 	if q.Len()+1 > q.limit {
 		if q.flush == false {
 			return false
@@ -97,6 +100,7 @@ func (q *queueLimitMPSC) Push(value any) bool {
 	}
 	atomic.AddInt64(&q.length, 1)
 	old_head := (*itemMPSC)(atomic.SwapPointer((*unsafe.Pointer)(unsafe.Pointer(&q.head)), unsafe.Pointer(i)))
+	VerifPoint("mpsc.link", q)
 	atomic.StorePointer((*unsafe.Pointer)(unsafe.Pointer(&old_head.next)), unsafe.Pointer(i))
 	return true
 }
